@@ -72,6 +72,9 @@ def cases():
         add([M("split", [1], [2, 3])], 3, {1: b}, [1], to, df=df)
     add([M("sum", [1], [2])], 2, {1: b}, [1], [2], df=[V([2])])
     add([M("diag", [1], [2])], 2, {1: sig([2, 0, 5])}, [1], [2], df=[V([1, 2, 3, 4, 5, 6, 7, 8, 9])])
+    # sparse-matrix output with a relative step, with and without the zero entries
+    add([M("diag", [1], [2])], 2, {1: sig([2, 0, -4])}, [1], [2], dx=(1, 8), rel=True, df=[V([1, 2, 3, 4, 5, 6, 7, 8, 9])])
+    add([M("diag", [1], [2])], 2, {1: sig([3, 0, 5])}, [1], [2], dx=(1, 4), rel=True, keepzero=False, df=[V([2, 0, 1, 0, 3, 0, 1, 0, -1])])
     # complex data: holomorphic and real-valued non-holomorphic maps, both directions
     z = sig([1 + 2j, -1j, 2])
     add([M("cscale", [1], [2])], 2, {1: z}, [1], [2], df=[V([1 + 1j, 2, -1j])], cplx=[True])
